@@ -10,7 +10,7 @@ import (
 	"time"
 
 	"verif/fw"
-	_ "verif/props"
+	"verif/props"
 )
 
 func main() {
@@ -42,6 +42,10 @@ func main() {
 				*seed = n
 			}
 		}
+	}
+	if os.Getenv("VERIF_CALIB") == "C04" {
+		props.C04Calibrate()
+		return
 	}
 	if *list {
 		ids := fw.IDs()
